@@ -903,6 +903,8 @@ pub fn kinds_for(target: Target) -> Vec<DocSpec> {
         ],
         _ => vec![
             d("bom-prefixed", "\u{feff}b: 2\n"),
+            // a NUL behind a document (known finding F70: the scanner takes it for the end of the input)
+            d("nul-behind-content", "n: 1\n\0\n"),
             d("type-then-undefined-alias", "a: &q 1\n? [complex, key]\n: *nope\n"),
             DocSpec { inline: true, ..d("empty-literal", "|\n") },
             d("empty-double-quoted", "\"\"\n"),
